@@ -785,6 +785,7 @@ func runC02(c *Ctx) {
 		var idocs []igDoc
 		var sems, nests [][2]string
 		var bsems [][4]string
+		var bsOpen []string // BlockSem: the model's open-block stack after the last line
 		nskip := 0
 		seen := map[string]bool{}
 		workers := 8
@@ -800,11 +801,12 @@ func runC02(c *Ctx) {
 				seen[k] = true
 				if g.module == "BlockSem" {
 					var d struct {
-						Src    string `json:"src"`
-						HTML   string `json:"html"`
-						Skip   bool   `json:"skip"`
-						SrcSp  string `json:"srcsp"`
-						HTMLSp string `json:"htmlsp"`
+						Src    string   `json:"src"`
+						HTML   string   `json:"html"`
+						Skip   bool     `json:"skip"`
+						SrcSp  string   `json:"srcsp"`
+						HTMLSp string   `json:"htmlsp"`
+						Open   []string `json:"open"`
 					}
 					if err := json.Unmarshal(raw, &d); err != nil {
 						infra("bad BlockSem document: %v: %s", err, clip(k, 300))
@@ -814,6 +816,7 @@ func runC02(c *Ctx) {
 						return
 					}
 					bsems = append(bsems, [4]string{d.Src, d.HTML, d.SrcSp, d.HTMLSp})
+					bsOpen = append(bsOpen, strings.Join(d.Open, " "))
 					return
 				}
 				if g.module == "NestGen" {
@@ -867,6 +870,14 @@ func runC02(c *Ctx) {
 				judge(c02Case{Kind: "gen", Source: rawDoc("## x " + sems[i][0] + "\n"), Expect: "<h2>x " + sems[i][1] + "</h2>", Variant: "emphasis/atx", From: g.name})
 			}
 		})
+		// state-level conformance: the blocks the real parser still holds open when the input ends
+		// (hook EndOfInput) against the model's stack. Which leaf is open decides whether following
+		// lines are swallowed (the side condition of C09), so a difference there is reported; WHEN a
+		// container or paragraph is closed (on the blank line or on the next line) is the
+		// implementation's choice and only counted.
+		if g.module == "BlockSem" {
+			bsStateConformance(c, bsems, bsOpen)
+		}
 		parallelFor(len(bsems), func(i int) {
 			judge(c02Case{Kind: "gen", Source: rawDoc(bsems[i][0]), Expect: bsems[i][1], Variant: "blocksem", From: g.name, AltSource: rawDoc(bsems[i][2]), AltExpect: bsems[i][3]})
 			// without the final line ending: only when the last line is not empty (else a line would disappear)
@@ -983,4 +994,77 @@ func c02Rewrites(c *Ctx, md goldmark.Markdown, judge func(c02Case)) {
 	})
 	c.Ev.Set("spec_examples", int64(len(specExamples)))
 	c.Ev.Set("examples_open_at_end_of_input", skipped)
+}
+
+var bsKindName = map[string]string{"quote": "Blockquote", "list": "List", "item": "ListItem", "para": "Paragraph", "fence": "FencedCodeBlock", "icode": "CodeBlock", "html": "HTMLBlock"}
+
+// bsStateConformance compares, for a sample of the BlockSem documents, the open-block stack of the
+// model after the last line with the blocks the real parser holds open at the end of the input.
+func bsStateConformance(c *Ctx, bsems [][4]string, open []string) {
+	installHooks()
+	p := c02Config.build().Parser()
+	var mu sync.Mutex
+	var same, leafDiff, otherDiff, lateHTML int64
+	var wit []string
+	cls := map[string]int{}
+	step := len(bsems)/c.Pick(40000, 400000) + 1
+	var idx []int
+	for i := 0; i < len(bsems); i += step {
+		// documents with tabs are left out: for them the rendering itself differs in a recorded
+		// way (known finding list-marker-columns), and the open leaf with it
+		if !strings.Contains(bsems[i][0], "\t") {
+			idx = append(idx, i)
+		}
+	}
+	parallelFor(len(idx), func(k int) {
+		i := idx[k]
+		kinds, _ := openKindsAtEOF(p, []byte(bsems[i][0]))
+		var want []string
+		for _, m := range strings.Fields(open[i]) {
+			want = append(want, bsKindName[m])
+		}
+		leaf := func(ks []string) string {
+			if n := len(ks); n > 0 && (ks[n-1] == "FencedCodeBlock" || ks[n-1] == "CodeBlock" || ks[n-1] == "HTMLBlock") {
+				return ks[n-1]
+			}
+			return ""
+		}
+		mu.Lock()
+		defer mu.Unlock()
+		switch {
+		case strings.Join(kinds, " ") == strings.Join(want, " "):
+			same++
+		case leaf(kinds) != leaf(want):
+			// named deviation: an HTML block (types 1-5) whose end condition is met on its FIRST
+			// line is closed by the real parser one line late (html_block.go Continue looks at the
+			// first line when the second arrives) - nothing follows, so nothing is swallowed
+			if leaf(want) == "" && leaf(kinds) == "HTMLBlock" && htmlClosedOnFirstLine(bsems[i][0]) {
+				lateHTML++
+				return
+			}
+			leafDiff++
+			cls[leaf(kinds)+"/"+leaf(want)]++
+			if len(wit) < 5 {
+				wit = append(wit, fmt.Sprintf("%q: parser holds %v open, BlockSem.tla %v", bsems[i][0], kinds, want))
+			}
+		default:
+			otherDiff++
+		}
+	})
+	c.Ev.Add("blocksem_state_same_open_blocks", same)
+	c.Ev.Add("blocksem_state_closing_time_differs", otherDiff)
+	c.Ev.Add("blocksem_state_open_leaf_differs", leafDiff)
+	c.Ev.Add("blocksem_state_one_line_html_block_closed_late", lateHTML)
+	if leafDiff > 0 {
+		c.Warn("BlockSem/open-leaf-at-end-of-input-differs", fmt.Sprintf("%d documents %v, e.g. %s", leafDiff, cls, strings.Join(wit, "; ")))
+	}
+}
+
+// htmlClosedOnFirstLine: the last non-blank line of the document both starts an HTML block of
+// types 2 or 3 (comment, processing instruction) and holds its end marker.
+func htmlClosedOnFirstLine(doc string) bool {
+	lines := strings.Split(strings.TrimRight(doc, "\n"), "\n")
+	last := strings.TrimLeft(lines[len(lines)-1], " >-+*1234567890.)\t")
+	return (strings.HasPrefix(last, "<!--") && strings.Contains(last, "-->")) || (strings.HasPrefix(last, "<?") && strings.Contains(last, "?>")) ||
+		(strings.HasPrefix(last, "<pre") && strings.Contains(last, "</pre>"))
 }
